@@ -40,7 +40,7 @@ EXTENDS Integers, Sequences, FiniteSets, TLC
 
 VARIABLES first,   \* TRUE in the reset state only
           exp,     \* per register: values its software-visible content may have in this cycle
-                   \*   [why: clause in charge, alts: set of per-word patterns (-1 = free)]
+                   \*   [why: clause in charge, alts: set of patterns <<value, words left free>>]
           stg,     \* per register: abstract back-buffer of atomic writes (per word, -1 = never written)
           rd,      \* <<data due on the master's dat_r in this cycle>> or <<>>
           bsel,    \* bank whose page was addressed in the previous cycle (0: none)
@@ -76,30 +76,22 @@ FOff(fs, j) == IF fs[j].offset # -1 THEN fs[j].offset
                ELSE IF j = 1 THEN 0 ELSE FOff(fs, j - 1) + fs[j - 1].size
 FPos(fs, j) == IF j = 1 THEN 0 ELSE FPos(fs, j - 1) + fs[j - 1].size      \* position in the packed f output
 FReset(fs, j) == IF j = 0 THEN 0 ELSE FReset(fs, j - 1) + fs[j].reset * (2^FOff(fs, j))
-RSize(c, r) == LET fs == c.regs[r].fields IN
+DSize(c, r) == LET fs == c.regs[r].fields IN
                IF fs = <<>> THEN c.regs[r].size ELSE FOff(fs, Len(fs)) + fs[Len(fs)].size
-RReset(c, r) == LET fs == c.regs[r].fields IN
+DReset(c, r) == LET fs == c.regs[r].fields IN
                 IF fs = <<>> THEN c.regs[r].reset ELSE FReset(fs, Len(fs))
-
-(* word geometry: register r spans NW bus words; the word at position k    *)
-(* (address order) holds bits [i*w, i*w + WBits) with i = k for little     *)
-(* ordering and i = NW-1-k for big ordering (most significant word first). *)
-NW(c, r) == (RSize(c, r) + c.w - 1) \div c.w
-WIdx(c, r, k) == IF c.little = 1 THEN k ELSE NW(c, r) - 1 - k
-WBits(c, r, i) == Min(c.w, RSize(c, r) - i * c.w)
-Word(c, r, v, i) == Slice(v, i * c.w, WBits(c, r, i))
-Words(c, r, v) == [i \in 1..MaxW |-> IF i <= NW(c, r) THEN Word(c, r, v, i - 1) ELSE 0]
-Match(wv, alt) == \A i \in 1..MaxW : alt[i] = -1 \/ alt[i] = wv[i]
+(* register r spans DNW bus words *)
+DNW(c, r) == (DSize(c, r) + c.w - 1) \div c.w
 
 ---------------------------------------------------------------------------
 (* address decoding: page = high bits, bank b answers on page bankadr[b]   *)
 BankAt(c, a) == LET p == a \div (2^c.pb)
                     S == { b \in 1..NB(c) : c.bankadr[b] = p }
                 IN IF S = {} THEN 0 ELSE CHOOSE b \in S : TRUE
-Tgt(c, a) == LET b == BankAt(c, a)
-                 lo == a % (2^c.pb)
-             IN IF b = 0 \/ c.built = 0 THEN <<0, 0>>
-                ELSE IF lo >= Len(c.map[b]) THEN <<0, 0>> ELSE c.map[b][lo + 1]
+DTgt(c, a) == LET b == BankAt(c, a)
+                  lo == a % (2^c.pb)
+              IN IF b = 0 \/ c.built = 0 THEN <<0, 0>>
+                 ELSE IF lo >= Len(c.map[b]) THEN <<0, 0>> ELSE c.map[b][lo + 1]
 
 (* documented placement (csr.py:_sort_gathered_items, GenericBank):        *)
 (* registers of a bank keep their creation order, a register with a fixed  *)
@@ -124,7 +116,7 @@ LayoutUpTo(c, b, n) ==   \* word list of list positions 0..n-1
   IF n = 0 THEN <<>>
   ELSE LET r == SlotReg(c, b, n - 1) IN
        LayoutUpTo(c, b, n - 1) \o
-       (IF r = 0 THEN << <<0, 0>> >> ELSE [k \in 1..NW(c, r) |-> <<r, k - 1>>])
+       (IF r = 0 THEN << <<0, 0>> >> ELSE [k \in 1..DNW(c, r) |-> <<r, k - 1>>])
 Layout(c, b) == LayoutUpTo(c, b, LocLen(c, b))
 RejectAllowed(c) ==      \* a refused construction must be due to a fixed location
   \E b \in 1..NB(c) : \/ Conflict(c, b)
@@ -138,38 +130,75 @@ LayoutOK(c) == IF c.built = 1
 Adrs(c) == 0..(c.npages * (2^c.pb) - 1)
 Z(c) == [i \in 1..NR(c) |-> 0]
 BusOps(c) == {<<0, 0, 0>>} \cup { <<2, a, 0>> : a \in Adrs(c) } \cup
-             UNION { { <<1, a, x>> : x \in (IF Tgt(c, a)[1] # 0 THEN SeqSet(c.dats) ELSE {c.hdat}) } : a \in Adrs(c) }
+             UNION { { <<1, a, x>> : x \in (IF DTgt(c, a)[1] # 0 THEN SeqSet(c.dats) ELSE {c.hdat}) } : a \in Adrs(c) }
 DvSet(c, r) == IF IsDev(Kind(c, r)) THEN { x + 1 : x \in SeqSet(c.regs[r].dvs) }
                ELSE SeqSet(c.regs[r].dvs) \ {0}
-OwnAdrs(c, r) == { a \in Adrs(c) : Tgt(c, a)[1] = r }
+OwnAdrs(c, r) == { a \in Adrs(c) : DTgt(c, a)[1] = r }
 (* bus operations a device-side activity of register r is combined with: idle, accesses to r
    itself and (for the read path) reads of every address *)
 Rel(c, r) == {<<0, 0, 0>>} \cup
              (IF IsDev(Kind(c, r))
               THEN { <<2, a, 0>> : a \in OwnAdrs(c, r) } \cup { <<1, a, x>> : a \in OwnAdrs(c, r), x \in SeqSet(c.dats) }
               ELSE { <<2, a, 0>> : a \in Adrs(c) })
-Inputs(c) == { b \o Z(c) : b \in BusOps(c) } \cup
-             UNION { { b \o [Z(c) EXCEPT ![r] = v] : b \in Rel(c, r), v \in DvSet(c, r) } : r \in 1..NR(c) }
+DInputs(c) == { b \o Z(c) : b \in BusOps(c) } \cup
+              UNION { { b \o [Z(c) EXCEPT ![r] = v] : b \in Rel(c, r), v \in DvSet(c, r) } : r \in 1..NR(c) }
+
+---------------------------------------------------------------------------
+(* Tables: the definitions above evaluated once per configuration (the drivers keep Ext(cfg) of
+   every DUT / trace in a constant, so that a step only looks values up).  From here on `c` is an
+   extended configuration. *)
+Ext(c) == [w |-> c.w, little |-> c.little, pb |-> c.pb, npages |-> c.npages, bankadr |-> c.bankadr,
+           regs |-> c.regs, map |-> c.map, built |-> c.built, free |-> c.free, dats |-> c.dats, hdat |-> c.hdat,
+           nr     |-> NR(c),
+           ob     |-> 1 + NB(c),                                     \* outputs before the first register
+           kind   |-> [r \in 1..NR(c) |-> c.regs[r].kind],
+           size   |-> [r \in 1..NR(c) |-> DSize(c, r)],
+           reset  |-> [r \in 1..NR(c) |-> DReset(c, r)],
+           nw     |-> [r \in 1..NR(c) |-> DNW(c, r)],
+           wrt    |-> [r \in 1..NR(c) |-> Writable(c, r)],
+           atom   |-> [r \in 1..NR(c) |-> IsAtomic(c.regs[r].kind) /\ DNW(c, r) > 1],
+           dev    |-> [r \in 1..NR(c) |-> IsDev(c.regs[r].kind)],
+           const  |-> { r \in 1..NR(c) : IsStatus(c.regs[r].kind) /\ c.regs[r].dvs = <<>> },
+           fregs  |-> { r \in 1..NR(c) : c.regs[r].fields # <<>> },
+           foff   |-> [r \in 1..NR(c) |-> [j \in 1..Len(c.regs[r].fields) |-> FOff(c.regs[r].fields, j)]],
+           fpos   |-> [r \in 1..NR(c) |-> [j \in 1..Len(c.regs[r].fields) |-> FPos(c.regs[r].fields, j)]],
+           tgt    |-> IF c.free = 1 THEN <<>> ELSE [a \in 1..(c.npages * (2^c.pb)) |-> DTgt(c, a - 1)],
+           inputs |-> IF c.free = 1 THEN {} ELSE DInputs(c),
+           layoutok |-> LayoutOK(c)]
+Inputs(c) == c.inputs
+RSize(c, r) == c.size[r]
+RReset(c, r) == c.reset[r]
+NW(c, r) == c.nw[r]
+Tgt(c, a) == IF c.free = 1 THEN DTgt(c, a) ELSE c.tgt[a + 1]
+(* word geometry: the word at position k (address order) of register r holds bits [i*w, i*w + WBits)
+   with i = k for little ordering and i = NW-1-k for big ordering (most significant word first) *)
+WIdx(c, r, k) == IF c.little = 1 THEN k ELSE NW(c, r) - 1 - k
+WBits(c, r, i) == Min(c.w, RSize(c, r) - i * c.w)
+Word(c, r, v, i) == Slice(v, i * c.w, WBits(c, r, i))
+SetWord(c, r, v, i, x) == v + (x - Word(c, r, v, i)) * (2^(i * c.w))      \* v with word i replaced by x
+(* a pattern <<v, free>> stands for every value that agrees with v on all words outside `free` *)
+Match(c, r, x, p) == IF p[2] = {} THEN x = p[1]
+                     ELSE \A i \in (0..(NW(c, r) - 1)) \ p[2] : Word(c, r, x, i) = Word(c, r, p[1], i)
 
 ---------------------------------------------------------------------------
 NoExp == [why |-> "N", alts |-> {}]
 AllOk == [okwrite |-> TRUE, okatomic |-> TRUE, okread |-> TRUE, okstrobe |-> TRUE, okisol |-> TRUE,
           okzero |-> TRUE, okfield |-> TRUE, okpulse |-> TRUE, okreset |-> TRUE, okdev |-> TRUE,
           oklayout |-> TRUE]
+NoOwe == <<{0}, {0}, 0>>
 
 CInit(c) ==
   /\ first = TRUE
-  /\ exp = [r \in 1..NR(c) |->
-              IF Writable(c, r)
-              THEN [why |-> "R", alts |-> {Words(c, r, IF Kind(c, r) = "status_rw" THEN 0 ELSE RReset(c, r))}]
+  /\ exp = [r \in 1..c.nr |->
+              IF c.wrt[r]
+              THEN [why |-> "R", alts |-> {<<IF c.kind[r] = "status_rw" THEN 0 ELSE RReset(c, r), {}>>}]
               ELSE NoExp]
-  /\ stg = [r \in 1..NR(c) |-> [i \in 1..MaxW |-> -1]]
+  /\ stg = [r \in 1..c.nr |-> [i \in 1..MaxW |-> -1]]
   /\ rd = <<>>
   /\ bsel = 0
-  /\ owe = [r \in 1..NR(c) |-> <<{0}, {0}, 0>>]
-  /\ obs = [AllOk EXCEPT !.oklayout = LayoutOK(c)]
+  /\ owe = [r \in 1..c.nr |-> NoOwe]
+  /\ obs = [AllOk EXCEPT !.oklayout = c.layoutok]
 
-OB(c, r) == 1 + NB(c) + 5 * (r - 1)
 (* strobe accounting.  An access causes its strobe in the same or in the next cycle ("after or during").
    S: what may be owed from the previous cycle, cur: what this cycle's access causes, x: the strobe seen.
    x = 1 is attributed to the owed strobe (this cycle's cause is then owed to the next cycle) or to this
@@ -185,103 +214,102 @@ CStep(c, iv, o) ==
   LET op  == iv[1]
       adr == iv[2]
       dat == iv[3]
-      N   == NR(c)
+      N   == c.nr
       tg  == Tgt(c, adr)
-      V(r)  == o[OB(c, r) + 1]
-      RE(r) == o[OB(c, r) + 2]
-      WE(r) == o[OB(c, r) + 3]
-      FF(r) == o[OB(c, r) + 4]
-      R2(r) == o[OB(c, r) + 5]
+      tr  == IF op = 0 THEN 0 ELSE tg[1]                              \* accessed register (0: none)
+      V(r)  == o[c.ob + 5 * r - 4]
+      RE(r) == o[c.ob + 5 * r - 3]
+      WE(r) == o[c.ob + 5 * r - 2]
+      FF(r) == o[c.ob + 5 * r - 1]
+      R2(r) == o[c.ob + 5 * r]
       DV(r) == iv[3 + r]
-      Cur(r) == IF Kind(c, r) = "status_rw" THEN R2(r) ELSE V(r)      \* the bus-writable content
-      wr(r) == op = 1 /\ tg[1] = r
-      rr(r) == op = 2 /\ tg[1] = r
-      last(r) == tg[2] = NW(c, r) - 1                                 \* highest address of the register
-      wi(r) == WIdx(c, r, tg[2])                                      \* word index of the addressed word
-      wdat(r) == dat % (2^WBits(c, r, wi(r)))
-      devw(r) == IsDev(Kind(c, r)) /\ DV(r) # 0
-      devv(r) == Words(c, r, (DV(r) - 1) % (2^RSize(c, r)))
-      atom(r) == IsAtomic(Kind(c, r)) /\ NW(c, r) > 1
+      wr(r) == op = 1 /\ tr = r
+      last == tg[2] = NW(c, tr) - 1                                   \* highest address of the register
+      wi == WIdx(c, tr, tg[2])                                        \* word index of the addressed word
+      wdat == dat % (2^WBits(c, tr, wi))
+      devw(r) == c.dev[r] /\ DV(r) # 0
+      devv(r) == (DV(r) - 1) % (2^RSize(c, r))
+      (* the bus-writable content of every register in this cycle *)
+      cur == [r \in 1..N |-> IF c.kind[r] = "status_rw" THEN R2(r) ELSE V(r)]
       (* ---- what the content of register r may be in the next cycle ---- *)
-      over(base, r) == [base EXCEPT ![wi(r) + 1] = wdat(r)]
-      commit(r) == [i \in 1..MaxW |-> IF i = wi(r) + 1 THEN wdat(r) ELSE IF i <= NW(c, r) THEN stg[r][i] ELSE 0]
-      cw(r) == Words(c, r, Cur(r))
+      over(v) == SetWord(c, tr, v, wi, wdat)
+      cmw(r, i) == IF i >= NW(c, r) THEN 0 ELSE IF i = wi THEN wdat ELSE IF stg[r][i + 1] = -1 THEN 0 ELSE stg[r][i + 1]
+      cmt(r, i) == IF i >= NW(c, r) THEN 0 ELSE cmw(r, i) * (2^(i * c.w))
+      commit(r) == << cmt(r, 0) + cmt(r, 1) + cmt(r, 2) + cmt(r, 3),
+                      { i \in 0..(NW(c, r) - 1) : i # wi /\ stg[r][i + 1] = -1 } >>
       expn(r) ==
-        IF ~Writable(c, r) THEN NoExp
-        ELSE IF atom(r) /\ wr(r) /\ last(r)
-             THEN IF devw(r) THEN [why |-> "D", alts |-> {commit(r), devv(r)}]
-                  ELSE [why |-> "A", alts |-> {commit(r)}]
-        ELSE IF atom(r) /\ wr(r)
-             THEN IF devw(r) THEN [why |-> "D", alts |-> {devv(r)}]
-                  ELSE [why |-> "A", alts |-> {cw(r)}]                \* staged only: the register keeps its value
+        IF ~c.wrt[r] THEN NoExp
         ELSE IF wr(r)
-             THEN IF devw(r)                                          \* same-cycle conflict: undocumented, any winner
-                  THEN [why |-> "D", alts |-> {over(cw(r), r), devv(r), over(devv(r), r)}]
-                  ELSE [why |-> "W", alts |-> {over(cw(r), r)}]
-        ELSE IF devw(r) THEN [why |-> "D", alts |-> {devv(r)}]
-        ELSE [why |-> "I", alts |-> {cw(r)}]
+        THEN IF c.atom[r]
+             THEN IF last                                             \* commit (a same-cycle device write may win)
+                  THEN [why |-> "A", alts |-> IF devw(r) THEN {commit(r), <<devv(r), {}>>} ELSE {commit(r)}]
+                  ELSE [why |-> "A",                                  \* staged only: the bus does not change the register
+                        alts |-> {<<IF devw(r) THEN devv(r) ELSE cur[r], {}>>}]
+             ELSE IF devw(r)                                          \* same-cycle conflict: undocumented, any winner
+                  THEN [why |-> "D", alts |-> {<<over(cur[r]), {}>>, <<devv(r), {}>>, <<over(devv(r)), {}>>}]
+                  ELSE [why |-> "W", alts |-> {<<over(cur[r]), {}>>}]
+        ELSE IF devw(r) THEN [why |-> "D", alts |-> {<<devv(r), {}>>}]
+        ELSE [why |-> "I", alts |-> {<<cur[r], {}>>}]
       (* ---- judgement of this cycle's content against the previous step's expectation ---- *)
-      valok(r) == \E alt \in exp[r].alts : Match(cw(r), alt)
-      bad(code) == \E r \in 1..N : exp[r].why = code /\ ~valok(r)
-      (* ---- strobes ---- *)
-      cre(r) == LET k == Kind(c, r) IN
-                IF ~wr(r) THEN 0
-                ELSE IF k = "csr" THEN 2
-                ELSE IF k = "status" THEN 1
-                ELSE IF last(r) THEN 2 ELSE 1
-      cwe(r) == LET k == Kind(c, r) IN
-                IF ~rr(r) THEN 0
-                ELSE IF k = "csr" THEN 2
-                ELSE IF IsStatus(k) THEN (IF last(r) THEN 2 ELSE 1)
+      badset == { r \in 1..N : c.wrt[r] /\ ~\E p \in exp[r].alts : Match(c, r, cur[r], p) }
+      bad(code) == \E r \in badset : exp[r].why = code
+      (* ---- strobes: what this cycle's access causes (2: must, 1: may) ---- *)
+      cre(r) == IF op # 1 \/ tr # r THEN 0
+                ELSE IF c.kind[r] = "csr" THEN 2
+                ELSE IF c.kind[r] = "status" THEN 1
+                ELSE IF last THEN 2 ELSE 1
+      cwe(r) == IF op # 2 \/ tr # r THEN 0
+                ELSE IF c.kind[r] = "csr" THEN 2
+                ELSE IF IsStatus(c.kind[r]) THEN (IF last THEN 2 ELSE 1)
                 ELSE 0
-      reok(r) == StrobeOk(owe[r][1], cre(r), RE(r))
-      weok(r) == StrobeOk(owe[r][2], cwe(r), WE(r))
+      quiet(r) == owe[r] = NoOwe /\ tr # r                            \* nothing owed, not accessed
+      sbad == { r \in 1..N : IF quiet(r) THEN RE(r) = 1 \/ WE(r) = 1
+                             ELSE ~StrobeOk(owe[r][1], cre(r), RE(r)) \/ ~StrobeOk(owe[r][2], cwe(r), WE(r)) }
       spurious(r) == \/ RE(r) = 1 /\ owe[r][1] = {0} /\ cre(r) = 0
                      \/ WE(r) = 1 /\ owe[r][2] = {0} /\ cwe(r) = 0
-      csrdata(r) == (Kind(c, r) = "csr" /\ RE(r) = 1 /\ reok(r)) =>
+      csrdata(r) == (c.kind[r] = "csr" /\ RE(r) = 1 /\ r \notin sbad) =>
                        \/ owe[r][1] # {0} /\ V(r) = owe[r][3]
                        \/ cre(r) # 0 /\ V(r) = dat % (2^RSize(c, r))
-      oren(r) == OweNext(owe[r][1], cre(r), RE(r))
+      owen(r) == IF quiet(r) /\ RE(r) = 0 /\ WE(r) = 0 THEN NoOwe
+                 ELSE LET a == OweNext(owe[r][1], cre(r), RE(r)) IN
+                      <<a, OweNext(owe[r][2], cwe(r), WE(r)), IF a # {0} THEN dat % (2^RSize(c, r)) ELSE 0>>
       (* ---- reads ---- *)
-      rdval == LET r == tg[1] IN
-               IF Kind(c, r) = "csr" THEN DV(r) % (2^RSize(c, r)) ELSE Word(c, r, V(r), wi(r))
+      rdval == IF c.kind[tr] = "csr" THEN DV(tr) % (2^RSize(c, tr)) ELSE Word(c, tr, V(tr), wi)
       (* ---- fields ---- *)
       fs(r) == c.regs[r].fields
       fieldok(r) ==
-        IF fs(r) = <<>> THEN TRUE
-        ELSE IF IsStorage(Kind(c, r))
+        IF IsStorage(c.kind[r])
         THEN \A j \in 1..Len(fs(r)) : fs(r)[j].pulse = 0 =>
-               Slice(FF(r), FPos(fs(r), j), fs(r)[j].size) = Slice(V(r), FOff(fs(r), j), fs(r)[j].size)
+               Slice(FF(r), c.fpos[r][j], fs(r)[j].size) = Slice(V(r), c.foff[r][j], fs(r)[j].size)
         ELSE c.regs[r].dvs # <<>> =>
                \A b \in 0..(RSize(c, r) - 1) :
                   Slice(V(r), b, 1) =
-                    (IF \E j \in 1..Len(fs(r)) : FOff(fs(r), j) <= b /\ b < FOff(fs(r), j) + fs(r)[j].size
-                     THEN LET j == CHOOSE j \in 1..Len(fs(r)) : FOff(fs(r), j) <= b /\ b < FOff(fs(r), j) + fs(r)[j].size
-                          IN Slice(DV(r), FPos(fs(r), j) + b - FOff(fs(r), j), 1)
+                    (IF \E j \in 1..Len(fs(r)) : c.foff[r][j] <= b /\ b < c.foff[r][j] + fs(r)[j].size
+                     THEN LET j == CHOOSE j \in 1..Len(fs(r)) : c.foff[r][j] <= b /\ b < c.foff[r][j] + fs(r)[j].size
+                          IN Slice(DV(r), c.fpos[r][j] + b - c.foff[r][j], 1)
                      ELSE 0)
       pulseok(r) ==
-        (fs(r) # <<>> /\ IsStorage(Kind(c, r))) =>
+        IsStorage(c.kind[r]) =>
           \A j \in 1..Len(fs(r)) : fs(r)[j].pulse = 1 =>
-            Slice(FF(r), FPos(fs(r), j), 1) = (IF RE(r) = 1 THEN Slice(V(r), FOff(fs(r), j), 1) ELSE 0)
-      constok(r) == (IsStatus(Kind(c, r)) /\ c.regs[r].dvs = <<>>) => V(r) = RReset(c, r)
+            Slice(FF(r), c.fpos[r][j], 1) = (IF RE(r) = 1 THEN Slice(V(r), c.foff[r][j], 1) ELSE 0)
   IN
   /\ first' = FALSE
   /\ exp' = [r \in 1..N |-> expn(r)]
-  /\ stg' = [r \in 1..N |-> IF atom(r) /\ wr(r) /\ ~last(r) THEN [stg[r] EXCEPT ![wi(r) + 1] = wdat(r)] ELSE stg[r]]
-  /\ rd' = IF op = 2 /\ tg[1] # 0 THEN <<rdval>> ELSE <<>>
+  /\ stg' = IF tr # 0 /\ op = 1 /\ c.atom[tr] /\ ~last THEN [stg EXCEPT ![tr][wi + 1] = wdat] ELSE stg
+  /\ rd' = IF op = 2 /\ tr # 0 THEN <<rdval>> ELSE <<>>
   /\ bsel' = BankAt(c, adr)
-  /\ owe' = [r \in 1..N |-> <<oren(r), OweNext(owe[r][2], cwe(r), WE(r)), IF oren(r) # {0} THEN dat % (2^RSize(c, r)) ELSE 0>>]
+  /\ owe' = [r \in 1..N |-> owen(r)]
   /\ obs' = [okwrite  |-> ~bad("W") /\ \A r \in 1..N : csrdata(r),
              okatomic |-> ~bad("A"),
              okdev    |-> ~bad("D"),
-             okisol   |-> ~bad("I") /\ (op # 0 => \A r \in 1..N : ~spurious(r)),
-             okreset  |-> ~bad("R") /\ \A r \in 1..N : constok(r),
-             okstrobe |-> \A r \in 1..N : (reok(r) /\ weok(r)) \/ (op # 0 /\ spurious(r)),
+             okisol   |-> ~bad("I") /\ (op # 0 => \A r \in sbad : ~spurious(r)),
+             okreset  |-> ~bad("R") /\ \A r \in c.const : V(r) = RReset(c, r),
+             okstrobe |-> \A r \in sbad : op # 0 /\ spurious(r),
              okread   |-> rd # <<>> => o[1] = rd[1],
              okzero   |-> /\ \A b \in 1..NB(c) : b # bsel => o[1 + b] = 0
                           /\ bsel = 0 => o[1] = 0,
-             okfield  |-> \A r \in 1..N : fieldok(r),
-             okpulse  |-> \A r \in 1..N : pulseok(r),
+             okfield  |-> \A r \in c.fregs : fieldok(r),
+             okpulse  |-> \A r \in c.fregs : pulseok(r),
              oklayout |-> TRUE]
 
 ---------------------------------------------------------------------------
